@@ -73,32 +73,92 @@ pub fn noop_cx() -> std::task::Context<'static> {
     std::task::Context::from_waker(Waker::noop())
 }
 
-/// `Vec::insert` / `Vec::remove` at a SYMBOLIC index are symbolic-length memmoves, which CBMC encodes
-/// with array theory over the whole buffer (measured: a 1-element insert did not finish in 300 s, the
-/// case-split below takes 0.2 s). These stubs are semantically identical re-implementations with
-/// element-wise swaps at concrete indices under symbolic guards.
+/// `Vec::insert` / `Vec::remove` / `VecDeque::remove` at a SYMBOLIC index are symbolic-length
+/// memmoves, which CBMC encodes with array theory over the whole buffer (measured: a 1-element insert
+/// did not finish in 300 s; the case split below takes 0.2 s). These stubs are semantically identical
+/// re-implementations that move elements one by one, TYPED (ptr::read / ptr::write of `T`, never a
+/// byte-wise swap: byte-wise copies turn the pointers inside `T` into integers and every later
+/// dereference into a case split over all objects - measured 33 GB), at CONCRETE indices under
+/// symbolic guards.
 pub fn vec_insert_stub<T, A: std::alloc::Allocator>(v: &mut Vec<T, A>, index: usize, element: T) {
     let len = v.len();
     assert!(index <= len, "insertion index out of bounds");
-    v.push(element);
-    let mut j = len;
-    while j > index {
-        v.swap(j, j - 1);
-        j -= 1;
+    v.reserve(1);
+    unsafe {
+        let p = v.as_mut_ptr();
+        // shift [index, len) up by one, from the back
+        let mut j = len;
+        while j > 0 {
+            if j > index {
+                let x = std::ptr::read(p.add(j - 1));
+                std::ptr::write(p.add(j), x);
+            }
+            j -= 1;
+        }
+        let mut k = 0;
+        let mut e = Some(element);
+        while k <= len {
+            if k == index {
+                if let Some(x) = e.take() {
+                    std::ptr::write(p.add(k), x);
+                }
+            }
+            k += 1;
+        }
+        std::mem::forget(e);
+        v.set_len(len + 1);
     }
 }
 pub fn vec_remove_stub<T, A: std::alloc::Allocator>(v: &mut Vec<T, A>, index: usize) -> T {
     let len = v.len();
     assert!(index < len, "removal index out of bounds");
-    let mut j = index;
-    while j + 1 < len {
-        v.swap(j, j + 1);
-        j += 1;
+    unsafe {
+        let p = v.as_mut_ptr();
+        let mut out: Option<T> = None;
+        let mut j = 0;
+        while j < len {
+            if j == index {
+                out = Some(std::ptr::read(p.add(j)));
+            }
+            if j > index {
+                let x = std::ptr::read(p.add(j));
+                std::ptr::write(p.add(j - 1), x);
+            }
+            j += 1;
+        }
+        v.set_len(len - 1);
+        match out {
+            Some(t) => t,
+            None => unreachable!(),
+        }
     }
-    match v.pop() {
-        Some(t) => t,
-        None => unreachable!(),
+}
+pub fn vecdeque_remove_stub<T, A: std::alloc::Allocator>(v: &mut std::collections::VecDeque<T, A>, index: usize) -> Option<T> {
+    let len = v.len();
+    if index >= len {
+        return None;
     }
+    let s = v.make_contiguous();
+    let mut out: Option<T> = None;
+    unsafe {
+        let p = s.as_mut_ptr();
+        let mut j = 0;
+        while j < len {
+            if j == index {
+                out = Some(std::ptr::read(p.add(j)));
+            }
+            if j > index {
+                let x = std::ptr::read(p.add(j));
+                std::ptr::write(p.add(j - 1), x);
+            }
+            j += 1;
+        }
+    }
+    // the last slot now holds a bitwise duplicate of its predecessor (or of the removed element):
+    // pop it without running its destructor
+    let dup = v.pop_back();
+    std::mem::forget(dup);
+    out
 }
 
 #[macro_export]
